@@ -242,7 +242,7 @@ def followups(fam, w):
     return out
 
 
-TIERS = {"quick": {"worlds": [("W1", "rev"), ("W3", "default")], "pre": 1, "double": True, "followup_stride": 2},
+TIERS = {"quick": {"worlds": [("W1", "rev"), ("W3", "default")], "pre": 1, "double": True, "followup_stride": 4},
          "thorough": {"worlds": [("W1", "rev"), ("W3", "rev")], "pre": 4, "double": True, "followup_stride": 1}}
 PRE_HISTORIES = {
     "W1": [[], [["link", "j1", "server", "sv_b"]], [["set", "sv", "server_type", ["c", "serverless"]]],
